@@ -54,18 +54,26 @@ def describe_types(description):
     return [jsonio.type_name(d.datatype) for d in description]
 
 
-def compare_select(case, ordered=True):
+def compare_select(case, ordered=True, conn=None, model_tabs=None):
     """Run case {'tables', 'default', 'sel', 'text'} both ways.
 
     Returns (fails, info): fails is a list of (sig, detail); info has the model/engine results."""
     fails = []
     info = {}
-    m = model(case['sel'], case['tables'], case.get('default'))
+    if model_tabs is not None:
+        # tables given directly (ledger traversal): the engine runs on the supplied connection
+        try:
+            m = ('ok',) + refmodel.run_select(case['sel'], model_tabs, 'postings')
+        except refmodel.Undefined as exc:
+            m = ('undef', str(exc))
+    else:
+        m = model(case['sel'], case['tables'], case.get('default'))
     if m[0] == 'undef':
         info['undef'] = m[1]
         return fails, info
     _, names, types, want = m
-    conn, _ = connect(case['tables'], case.get('default'))
+    if conn is None:
+        conn, _ = connect(case['tables'], case.get('default'))
     query = bql.to_ast(case['sel']) if case.get('via_ast') else case['text']
     r = engine(conn, query, case.get('params'))
     if r[0] == 'exc':
